@@ -391,12 +391,12 @@ def gen_term_case(r, idx, wild=False, nops=None, kinds=None):
                     cur = None
             if not wild and r.chance(1, 8):
                 # a manipulator object made once and streamed (again)
-                if not any(l.startswith("O 7 ") for l in lines):
+                if not any(l.startswith("O 8 ") for l in lines):
                     x, y = r.below(max(w, 1)), r.below(max(h, 1))
-                    lines.append(r.pick(["O 7 title 6869", "O 7 move %d %d" % (x, y), "O 7 hide", "O 7 show", "O 7 mouse 1", "O 7 mouse 0", "O 7 erase"]))
-                if not (lines[-1].startswith("O 7 move") and w == 0) and not (w == 0 and any(l.startswith("O 7 move") for l in lines)):
-                    lines.append("T 0 use 7")
-                    mv = next((l for l in lines if l.startswith("O 7 move")), None)
+                    lines.append(r.pick(["O 8 title 6869", "O 8 move %d %d" % (x, y), "O 8 hide", "O 8 show", "O 8 mouse 1", "O 8 mouse 0", "O 8 erase"]))
+                if not (lines[-1].startswith("O 8 move") and w == 0) and not (w == 0 and any(l.startswith("O 8 move") for l in lines)):
+                    lines.append("T 0 use 8")
+                    mv = next((l for l in lines if l.startswith("O 8 move")), None)
                     if mv:
                         cur = (int(mv.split()[3]), int(mv.split()[4]))
             if r.chance(1, 6):
